@@ -14,7 +14,9 @@ import TruthModel.Props.C04
 #print axioms TruthModel.C04.join_ok
 #print axioms TruthModel.C04.render_panics_iff
 #print axioms TruthModel.C04.built_spans_render
-#print axioms TruthModel.C04.null_span_panics
+#print axioms TruthModel.C04.renderDiag_panics_iff
+#print axioms TruthModel.C04.null_span_renders
+#print axioms TruthModel.C04.renderDiag_ok
 #print axioms TruthModel.C04.checkStmts_np
 #print axioms TruthModel.C04.simpE_typed
 #print axioms TruthModel.C04.evalConst_typed
